@@ -81,6 +81,15 @@ def spec_decode(buf, C, shape_zyx, block_xyz, itemsize):
                                 off = dx + bx * (dy + by * dz)
                                 word = _term(buf, vals + 4 * (off * bits // 32), 4)
                                 idx = z3.LShR(word, (off * bits) % 32) & ((1 << bits) - 1)
+                                idx = z3.simplify(idx)
+                                if z3.is_bv_value(idx):
+                                    # concrete index (concrete packed values): direct look-up
+                                    j = idx.as_long()
+                                    if j >= nent:
+                                        conds.append(z3.BoolVal(False))
+                                        j = nent - 1
+                                    out[c][zz][yy][xx] = table[j]
+                                    continue
                                 if nent < (1 << bits):
                                     conds.append(z3.ULT(idx, nent))
                                 v = table[nent - 1]
